@@ -24,6 +24,13 @@ EXTRA = [
     "parameters(a=0.5)\nstates(x=1.0, y=2.0)\nu = Conditional(Gt(x, 0), x*x, -x)\ndx_dt = -u*y\ndy_dt = u - a*y*y*y\n",
     "parameters(a=0.5, b=2.0)\nstates(x=1.0, y=2.0, z=3.0)\np = x + y\nq = p*z\nr = q + p\ndx_dt = r*a\ndy_dt = q - r\ndz_dt = log(1 + x*x) - sqrt(1 + y*y) + b*p\n",
     "parameters(k=2.0)\nstates(x=1.0, y=0.5)\ndx_dt = x**3 - k*x*y\ndy_dt = abs(x) - y**2\n",
+    # intermediates that are literally zero / one (switched-off currents), used directly and through other intermediates
+    "parameters(k=2.0)\nstates(m=1.0, v=0.5)\ni_stim = 0\ni_off = 0.0\ni_tot = i_stim + k*v\nunit = 1\ndm_dt = -k*m + i_stim*unit\ndv_dt = -i_tot + i_off*m\n",
+    # a state (and its derivative) declared identically in two components
+    ('states("A", x=1.0, m=0.5)\nstates("B", m=0.5, z=2.0)\nparameters("A", k=2.0)\nexpressions("A")\ndm_dt = -k*m\ndx_dt = -x + m\n'
+     'expressions("B")\ndm_dt = -k*m\ndz_dt = m*x - z\n'),
+    # an intermediate that reads a state derivative
+    "parameters(c=2.0)\nstates(x=1.0, y=0.5)\ndx_dt = -x*y\nj = dx_dt*c\ndy_dt = j - y\n",
 ]
 
 
@@ -70,6 +77,8 @@ def work(task):
         return prog.result()
     prog.fact("rhs_matrix", True, "", "")
     names = [str(s) for s in S]
+    prog.fact("shape", tuple(R.shape) == (len(m.states), 1) and len(names) == len(m.states), "MatrixShape",
+              f"rhs_matrix has shape {tuple(R.shape)}, states_matrix {tuple(S.shape)}, the model has {len(m.states)} states")
     code = checks.generate(prog, "numpy|get_code", pipeline.gen_py, ode)
     if code is not None:
         from ..views import PyView
